@@ -98,6 +98,8 @@ type c05World struct {
 	wentAway map[types.UID]bool
 	// reservations the cache was handed before they had a node
 	seenUnbound map[types.UID]bool
+	// reservations that were re-placed on another node under the same uid
+	moved map[types.UID]bool
 	// dimsSince["r/p"]: the dimensions reserved without interruption since pod p was added to reservation r
 	dimsSince map[string]map[corev1.ResourceName]bool
 	uidSeq    int
@@ -418,6 +420,9 @@ func (w *c05World) check(where string) {
 		}
 	}
 	dangling := func(index, n string, uid types.UID) {
+		if cache.reservationInfos[uid] == nil && w.moved[uid] {
+			c.Fail("C05/index/dangling-after-node-move/"+index, "%s: %s[%s] references reservation %s which no longer exists (the reservation was moved to another node under the same uid)", where, index, n, uid)
+		}
 		if cache.reservationInfos[uid] == nil {
 			c.Fail("C05/index/dangling/"+index, "%s: %s[%s] references reservation %s which no longer exists", where, index, n, uid)
 		}
